@@ -8,6 +8,7 @@ the deterministic scheduler are validated step by step against it, and TLC
 judges their observable traces with the monitor clauses P19_* of
 spec/Pipeline.tla."""
 from checks import chan_common as cc
+from checks import chan_random
 from checks import chan_model
 
 LEVEL = "model_checking"
@@ -32,6 +33,11 @@ def scenarios(thorough):
         out.append(cc.mk([P(1), E(2)], lookahead=la, workers=1, split="joinheads", waits=(), body_in_two=True, name="plain+expect head same read, body sent in two pieces without waiting, la=%d" % la))
         out.append(cc.mk([E(1), E(2)], lookahead=la, workers=2, split="headbody", waits=(), body_in_two=True, name="two expecting requests, bodies in two pieces, client never waits, la=%d" % la))
     out.append(cc.mk([E(1), E(2)], lookahead=1, workers=2, split="headbody", waits=(1, 2), name="two expecting requests, both wait"))
+    # the body has begun (its first byte travels with the head) but has not fully arrived when the request's turn comes
+    for la in (0, 1):
+        out.append(cc.mk([P(1), E(2)], lookahead=la, workers=1, split="joinheads", waits=(2,), part_with_head=True,
+                         name="plain+expect head+first body byte in one read, waits la=%d" % la))
+    out.append(cc.mk([E(1)], lookahead=0, split="joinheads", waits=(1,), part_with_head=True, name="expect head+first body byte, waits"))
     out.append(cc.mk([{"k": 1, "kind": "expect_nobody"}, P(2)], lookahead=0, split="each", name="body-less expecting request then plain"))
     out.append(cc.mk([{"k": 1, "kind": "expect_nobody"}], lookahead=0, name="body-less expecting request alone"))
     out.append(cc.mk([{"k": 1, "kind": "expect10"}], lookahead=0, split="headbody", name="HTTP/1.0 with Expect"))
@@ -45,6 +51,7 @@ def run(chk, replay=None):
     chan_model.model_check(chk, "C19", scns)
     n_pct, dfs = (800, 3000) if chk.thorough else (80, 400)
     cc.explore_and_validate(chk, "C19", scns, n_pct, dfs, bound=2, label="continue")
+    chan_random.explore(chk, "C19")
     chk.rule = ("cases = schedules of the real server over %d pipelines mixing expecting and plain requests (waiting clients, head/body segmentation, lookahead 0..2); "
                 "evaluations = distinct traces judged by TLC" % len(scns))
     chk.assumptions += ["a waiting client sends the body only after it has seen the interim response", "simulated kernel"]
